@@ -21,7 +21,7 @@ ASSUMPTIONS = ["the six mask expressions and the 256-row flag graph are regenera
 
 # what follows the attested data when ED is set: the table must not depend on *which* extension map it is
 # (the empty map is a legal, canonically encoded extension map)
-EXTS = [{"credProtect": 2}, {}, {"credBlob": True, "x": [1, {"y": b"z"}]}]
+EXTS = [{"credProtect": 2}, {}, {"credBlob": True, "x": [1, {"y": b"z"}]}, {"credProtect": 2, "example.confidence": 0.5, "f": [1.5, 1.1]}]
 
 
 def spec_row(b):
@@ -119,6 +119,6 @@ def run(ctx, res):
     corr.merge(res, corr.parallel(work, tasks))
     res.exhaustive = True
     res.rule = ("ALL 256 flag bytes x require_user_verification in {False, True} for authentication and x (require_user_presence, "
-                "require_user_verification) in all four combinations for registration (fmt none), authenticator data laid out as the flags announce (three extension maps incl. the empty one when ED is set), "
+                "require_user_verification) in all four combinations for registration (fmt none), authenticator data laid out as the flags announce (four extension maps incl. the empty one and one with floating-point values - outside the model, judged on the real code - when ED is set), "
                 "each assertion genuinely signed; parser outcome and verify_authentication_response outcome/reported fields compared "
                 "with the spec table and with the model (equality); distinct = (flag byte, policy)")
